@@ -705,6 +705,13 @@ pub fn c13(c: &mut Collector, seed: u64, shard: u64, nshards: u64, thorough: boo
         for cr in &crafted {
             positions.push(EnginePos { label: "ep-family-before-double-step", pos: cr.pre.clone(), history: vec![] });
         }
+        // two pinned pieces of one kind (iteration order over the pinned set is not mirror-symmetric)
+        let mut dp = Vec::new();
+        let mut dprng = Rng::new(0xD0B1 + shard);
+        workload::double_pin_family(&mut dprng, if thorough { 400 } else { 60 }, &mut dp);
+        for cr in dp {
+            positions.push(EnginePos { label: "double-pin", pos: cr.pre, history: vec![] });
+        }
         let mut other = Vec::new();
         workload::promo_family(&mut other);
         let stride = if thorough { 8 } else { 48 };
